@@ -240,4 +240,39 @@ theorem sum_near_rat : ∀ (ts : List Term), (∀ t ∈ ts, t.Ok) →
     rw [e]
     exact le_trans (abs_add_le _ _) (add_le_add ht hr)
 
+
+/-- weighted sums of values that are pairwise within `τ` differ by at most the weighted `τ` -/
+theorem sum_weighted_tol {α : Type} (τ : ℚ) (w f g : α → ℚ) : ∀ (l : List α),
+    (∀ a ∈ l, 0 ≤ w a ∧ |f a - g a| ≤ τ) →
+    |(l.map fun a => w a * f a).sum - (l.map fun a => w a * g a).sum| ≤ (l.map fun a => w a * τ).sum := by
+  intro l
+  induction l with
+  | nil => intro _; simp
+  | cons a l ih =>
+    intro h
+    obtain ⟨h0, h1⟩ := h a (by simp)
+    have hr := ih (fun x hx => h x (by simp [hx]))
+    simp only [List.map_cons, List.sum_cons]
+    have e : w a * f a + (l.map fun a => w a * f a).sum - (w a * g a + (l.map fun a => w a * g a).sum)
+        = w a * (f a - g a) + ((l.map fun a => w a * f a).sum - (l.map fun a => w a * g a).sum) := by ring
+    rw [e]
+    have h2 : |w a * (f a - g a)| ≤ w a * τ := by
+      rw [abs_mul, abs_of_nonneg h0]; exact mul_le_mul_of_nonneg_left h1 h0
+    exact le_trans (abs_add_le _ _) (add_le_add h2 hr)
+
+/-- the writer's explicit point numbers are distinct (strictly ascending) -/
+theorem sasc_nodup : ∀ (ps : List Nat) (np : Nat), SAsc np ps → (np :: ps).Nodup := by
+  intro ps
+  induction ps with
+  | nil => intro np _; simp
+  | cons q ps ih =>
+    intro np ⟨h1, h2, h3⟩
+    have := ih q h3
+    rw [List.nodup_cons]
+    refine ⟨?_, this⟩
+    intro hm
+    rcases List.mem_cons.mp hm with h | h
+    · omega
+    · have := (sasc_bound ps q h3 np h).1; omega
+
 end FontVerif.GvarApply
